@@ -238,6 +238,15 @@ def f():
 '''
 
 
+def compiles(s) -> bool:
+    """`break`/`continue` directly under a nested def (not in a loop of that def) do not compile."""
+    try:
+        compile(HARNESS.format(body=s_text(s, 2, tick=True)), "<stmt>", "exec")
+        return True
+    except SyntaxError:
+        return False
+
+
 def explore(s, suppress: bool, max_len=9, max_ticks=5):
     """Set of observed outcomes {'N','R','E','B','C'} over all scripts of the unknowns."""
     code = compile(HARNESS.format(body=s_text(s, 2, tick=True)), "<stmt>", "exec")
@@ -300,6 +309,147 @@ def explore(s, suppress: bool, max_len=9, max_ticks=5):
 
 
 # ---------------------------------------------------------------------------------------------
+# end-to-end: the statement inside a function, followed by an observable call, through
+# fixes.delete_unreachable_code; both versions executed under every script of the unknowns
+
+E2E = '''
+def f():
+    for _w in (0, 1):
+{body}
+        after()
+    return 7
+'''
+
+
+def behaviours(src, suppress: bool, max_len=8, max_ticks=4):
+    """set of (calls observed, result) over all scripts; None when the source does not compile"""
+    try:
+        code = compile(src, "<prog>", "exec")
+    except SyntaxError:
+        return None
+    seen = set()
+    stack = [[]]
+    while stack:
+        script = stack.pop()
+        pos = [0]
+        ticks = [0]
+        log = []
+
+        def draw():
+            if pos[0] >= len(script):
+                raise _Exhausted()
+            v = script[pos[0]]
+            pos[0] += 1
+            return v
+
+        def c():
+            return bool(draw())
+
+        def g():
+            log.append("g")
+            if draw():
+                raise _E()
+
+        def it():
+            return [0] * (draw() + draw())
+
+        def tick():
+            ticks[0] += 1
+            if ticks[0] > max_ticks:
+                raise _Diverge()
+
+        def after():
+            log.append("after")
+
+        class cm:
+            def __enter__(self):
+                return self
+
+            def __exit__(self, et, ev, tb):
+                if et is not None and issubclass(et, _E) and suppress:
+                    return bool(draw())
+                return False
+
+        env = {"c": c, "g": g, "it": it, "tick": tick, "cm": cm, "E": _E, "after": after}
+        exec(code, env)
+        try:
+            r = env["f"]()
+            seen.add((tuple(log), repr(r)))
+        except _Exhausted:
+            if len(script) < max_len:
+                stack.append(script + [0])
+                stack.append(script + [1])
+        except _Diverge:
+            pass
+        except (_E, AssertionError):
+            seen.add((tuple(log), "E"))
+    return seen
+
+
+def has_with(s) -> bool:
+    if isinstance(s, tuple):
+        return s[0] == "with" or any(has_with(x) for x in s[1:])
+    if isinstance(s, list):
+        return any(has_with(x) for x in s)
+    return False
+
+
+# witnesses of the repaired defects F16-1, F16-3, F16-4, F16-14 (they must keep their behaviour from now on)
+FIXED_FLOW_WITNESSES = [
+    ("while", "TUnknown", [("return",)], []),
+    ("while", "TTrue", [("if", "TUnknown", [("break",)], []), ("return",)], []),
+    ("while", "TTrue", [("try", [("break",)], [[("pass",)]], [], [])], []),
+    ("if", "TTrue", [("call",)], [("call",), ("return",)]),
+    ("if", "TFalse", [("return",)], [("call",)]),
+    ("while", "TFalse", [("call",)], [("raise",)]),
+    ("while", "TFalse", [("raise",)], [("return",)]),
+    ("while", "TFalse", [("call",)], []),
+]
+
+
+def has_const_test(s) -> bool:
+    """an if / while with a literal test: delete_unreachable_code removes the dead branch / loop"""
+    if isinstance(s, tuple):
+        if s[0] in ("if", "while") and s[1] in ("TTrue", "TFalse"):
+            return True
+        return any(has_const_test(x) for x in s[1:])
+    if isinstance(s, list):
+        return any(has_const_test(x) for x in s)
+    return False
+
+
+def flow_end_to_end(run, mods, shapes):
+    fixes, core = mods["fixes"], mods["core"]
+    fails, known, n, n_rw = [], [], 0, 0
+    for s in shapes:
+        src = E2E.format(body=s_text(s, 2, tick=True))
+        core.parse.cache_clear()
+        with common.quiet():
+            try:
+                out = fixes.delete_unreachable_code(src)
+            except Exception as exc:  # noqa
+                fails.append({"stmt": src, "problem": f"delete_unreachable_code raised {type(exc).__name__}: {exc}"})
+                continue
+        n += 1
+        if out == src:
+            continue
+        n_rw += 1
+        for sup in (False, True):
+            if sup and not has_with(s):
+                continue
+            b1, b2 = behaviours(src, sup), behaviours(out, sup)
+            if b2 is None:
+                fails.append({"stmt": src, "after": out, "problem": "output does not compile"})
+                break
+            if b1 != b2:
+                rec = {"stmt": src, "after": out, "suppress": sup,
+                       "only_before": sorted(map(repr, b1 - b2))[:3], "only_after": sorted(map(repr, b2 - b1))[:3]}
+                (known if sup else fails).append(rec)
+                break
+    return fails, known, n, n_rw
+
+
+# ---------------------------------------------------------------------------------------------
 
 
 def model_eval(wd, stmts, tag):
@@ -340,12 +490,12 @@ def check(run: common.Run):
     mods = common.import_impl()
     rnd = random.Random(run.seed)
 
-    stmts = list(depth1()) + list(loops_with_compound_child())
+    stmts = [s for s in itertools.chain(depth1(), loops_with_compound_child()) if compiles(s)]
     n_exh = len(stmts)
     nrand = 3000 if run.tier == "quick" else 40000
     for _ in range(nrand):
         s = rand_stmt(rnd, rnd.choice([2, 2, 3]))
-        if s[0] in ("pass", "call", "return", "raise", "break", "continue", "assert"):
+        if s[0] in ("pass", "call", "return", "raise", "break", "continue", "assert") or not compiles(s):
             continue
         stmts.append(s)
     hist = Counter(s[0] for s in stmts)
@@ -385,6 +535,12 @@ def check(run: common.Run):
         elif flags[0] and "N" in obs1:
             known_hits.append({"stmt": src, "observed": sorted(obs1)})
 
+    # ---- end to end through delete_unreachable_code (deterministic slice of the exhaustive shapes)
+    cand = [s for s, m in zip(stmts[:n_exh], model[:n_exh]) if any(m["flags"][:3]) or has_const_test(s)]
+    step = 13 if run.tier == "quick" else 1
+    e2e_fail, e2e_known, n_e2e, n_e2e_rw = flow_end_to_end(run, mods, FIXED_FLOW_WITNESSES + cand[::step])
+    known_hits += [{"stmt": k["stmt"], "observed": k["only_after"]} for k in e2e_known]
+
     # ---- known findings
     kf = common.load_findings(PID)
     for f in kf:
@@ -400,11 +556,15 @@ def check(run: common.Run):
         run.violation({"kind": "property-oracle", "site": "core.is_blocking", **pf,
                        "explanation": "is_blocking(stmt) is True but an execution of the statement completes "
                                       "normally (the statement after it is reachable)"}, True)
+    for ef in e2e_fail[:4]:
+        run.violation({"kind": "property-oracle", "site": "fixes.delete_unreachable_code", **ef,
+                       "explanation": "the function behaves differently after delete_unreachable_code (calls observed "
+                                      "/ result, over every script of the unknown tests, iterables and calls)"}, True)
     for kh in known_hits[:3]:
         run.violation({"kind": "property-oracle", "site": "core.is_blocking", **kh,
                        "explanation": "blocking although a suppressing context manager lets execution continue; "
                                       "not a listed finding"}, True)
-    if not prop_fail:
+    if not prop_fail and not e2e_fail:
         for d in disagreements[:5]:
             run.violation({"kind": "correspondence", "kernel": "K5 FlowModel.is_blocking/may_leave", **d,
                            "explanation": "model and implementation disagree; no execution contradicting the "
@@ -432,23 +592,96 @@ def check(run: common.Run):
         exhaustive=False, exhaustive_part=n_exh, random_part=len(stmts) - n_exh, histogram=dict(hist),
         correspondence_disagreements=len(disagreements), semantics_violations=len(sem_bad),
         property_oracle_failures=len(prop_fail), model_imprecision_N=imprecise,
+        e2e_unreachable_cases=n_e2e, e2e_unreachable_rewritten=n_e2e_rw, e2e_unreachable_failures=len(e2e_fail),
         trusted_base=common.TRUSTED_BASE_COMMON + [
             "FlowModel.outcomes is a definition (reference semantics); validated on every run against CPython by "
             "exhaustive path exploration of each enumerated shape (observed outcomes must be allowed by it)",
             "tests are abstracted to literal-truthy / literal-falsy / unknown and iterables to empty / non-empty / "
             "unknown: the literal_value classification itself belongs to C15"],
     )
-    run.assumptions += ["context managers are assumed not to swallow exceptions (tool's design; known finding F16-2)",
-                        "has_side_effect / delete_pointless_statements: see coverage.effects"]
+    run.assumptions += [
+        "context managers are assumed not to swallow exceptions (tool's design; known finding F16-2)",
+        "operators, attribute reads, subscripts and iteration of unknown objects are assumed free of side effects "
+        "(tool's design); `_` is a throw-away name (documented convention of has_side_effect)",
+        "evaluation errors of expressions (TypeError, NameError ...) are outside the property",
+        "T16.4 holds under the guard `plain` (callees identifiable by name), T16.5 for distinct definition names: "
+        "known findings F16-12, F16-13",
+        "the whole-program claim 'deleting the statement preserves behaviour' is checked by the end-to-end execution "
+        "oracle on enumerated inputs, not proved"]
     from . import c16_effects
-    c16_effects.check(run, mods, wd, rnd)
+    eff = c16_effects.check(run, mods, wd, rnd)
+    cov = run.coverage
+    cov["flow_evaluations"] = cov["evaluations"]
+    cov["evaluations"] = (cov["evaluations"] + eff.get("hse_evaluations", 0) + eff.get("module_cases", 0)
+                          + eff.get("semantics_cases", 0) + eff.get("e2e_cases", 0))
+    cov["distinct_nontrivial"] = cov["distinct_nontrivial"] + eff.get("hse_no_side_effect_cases", 0)
+    cov["rule"] += (" EFFECTS: core.has_side_effect vs EffectModel.hse on 46 sub-terms x single-hole expression / "
+                    "statement contexts (complete) + two-level contexts (sharded in quick) + seeded random terms, each "
+                    "under two whitelists; parsing.safe_callable_names and the deletion flags of "
+                    "delete_pointless_statements vs the model on generated modules; EffectModel.exec validated against "
+                    "CPython (logging stubs, all scripts of draws); before/after execution oracle. Non-trivial "
+                    "(effects) = judged free of side effects; distinct by source text.")
+    cov["samples"] = cov["samples"] + eff.get("samples", [])
+    cov["trusted_base"] = cov["trusted_base"] + [
+        "EffectModel.eval/exec (+ benign) is a definition (reference semantics); validated on every run against "
+        "CPython: observed (trace, outcome) behaviours over all scripts must be among the model's over all oracles",
+        "the split of a function body at its first blocking statement inside safe_callable_names is computed by the "
+        "harness with the real core.is_blocking and handed to the model",
+        "regenerated coq/generated/Tables.v (SAFE_CALLABLES) -- fail-closed dumper"]
+    cov["unmodelled"] = ["try / match / async statements (has_side_effect answers True for them)",
+                         "the traversal order of parsing.iter_bodies_recursive (only which bodies are visited matters)",
+                         "other consumers of is_blocking / has_side_effect: remove_redundant_else, swap_if_else, "
+                         "breakout_common_code_in_ifs, remove_dead_ifs, literal_value's precondition"]
 
 
 def replay(path: str) -> int:
+    """re-run one recorded case on the real code and re-evaluate the property's oracle"""
     data = json.loads(Path(path).read_text())
     mods = common.import_impl()
-    print(json.dumps({k: data[k] for k in data if k in ("kind", "explanation", "site", "stmt", "observed")}, indent=1))
+    keys = ("kind", "explanation", "site", "stmt", "case", "after", "observed", "only_before", "only_after", "impl",
+            "model", "whitelist", "fn", "file", "broken")
+    print(json.dumps({k: data[k] for k in keys if k in data}, indent=1))
+    rc = 0
+    if data.get("kind", "").startswith("proof"):
+        wd = common.workdir(PID + "-replay")
+        ok, blog = common.coq_build()
+        pr = common.check_props(PID, wd) if ok else {"ok": False, "log": blog}
+        print("proof obligations now:", "ok" if pr["ok"] else "BROKEN\n" + pr.get("log", "")[-2000:])
+        return 0 if pr["ok"] else 1
     if "stmt" in data:
-        node = ast.parse(data["stmt"]).body[0]
-        print("is_blocking now:", mods["core"].is_blocking(node))
-    return 0
+        src = data["stmt"]
+        try:
+            node = ast.parse(src).body[0]
+            with common.quiet():
+                print("is_blocking now:", bool(mods["core"].is_blocking(node)))
+        except SyntaxError:
+            pass
+        if "def f():" in src:
+            with common.quiet():
+                out = mods["fixes"].delete_unreachable_code(src)
+            b1, b2 = behaviours(src, bool(data.get("suppress"))), behaviours(out, bool(data.get("suppress")))
+            same = b1 == b2
+            print("delete_unreachable_code now gives:\n" + out)
+            print("behaviours before/after", "agree" if same else "DIFFER: " + repr(sorted(map(repr, (b1 or set()) ^ (b2 or set())))[:4]))
+            rc = 0 if same else 1
+    if "case" in data:
+        from . import c16_effects
+        src = data["case"]
+        if src.endswith("after()\n"):
+            src = src[: -len("after()\n")]
+        try:
+            tree = ast.parse(src)
+            with common.quiet():
+                flags = [bool(mods["core"].has_side_effect(n, frozenset(mods["constants"].SAFE_CALLABLES) | {"g"}))
+                         for n in tree.body]
+            print("has_side_effect now (per top-level statement, whitelist SAFE_CALLABLES + g):", flags)
+        except SyntaxError as exc:
+            print("not parsable:", exc)
+        r = c16_effects.search_failing_input(mods, src)
+        if r:
+            print("delete_pointless_statements changes the observable behaviour:")
+            print(json.dumps({k: r[k] for k in ("after", "only_before", "only_after", "sigs")}, indent=1))
+            rc = 1
+        else:
+            print("delete_pointless_statements: no observable difference found now")
+    return rc
